@@ -190,13 +190,12 @@ func checkTree(ctx *Ctx, r *Report, ts treeSpec) {
 			allOK = false
 			continue
 		}
-		p, _ := e.Args[1].(*Ptr)
-		if p == nil || p.Obj == nil {
+		cv := cubeArg(e, e.Args[1])
+		if cv == nil {
 			allOK = false
 			detail += fmt.Sprintf(" child %d: argument is not a fresh cube literal;", i)
 			continue
 		}
-		cv := getPath(e.State.mem[p.Obj], p.Path)
 		v, ok1 := fieldOf(cv, "v")
 		n, ok2 := fieldOf(cv, "n")
 		nt, _ := n.(*Term)
@@ -320,6 +319,27 @@ func checkIsEmpty(ctx *Ctx, r *Report, efn *ssa.Function, dim int, label string)
 	r.check("Q3", label+"|sampled-at-cube-centre", efn.Pos(), okC, "distance sampled at c.v + (1<<(c.n-1)) on every axis; term: "+shortKey(d.Key(), 200))
 }
 
+// cubeArg: the cube handed to a recursive call, whether passed by pointer or by value.
+func cubeArg(e Event, a Val) Val {
+	switch x := a.(type) {
+	case *Ptr:
+		if x.Obj == nil {
+			return nil
+		}
+		return getPath(e.State.mem[x.Obj], x.Path)
+	case *Agg:
+		return x
+	case *Sym:
+		return materialise(x)
+	case *Tuple:
+		// (pointer, pointee) snapshot
+		if len(x.Elems) == 2 {
+			return x.Elems[1]
+		}
+	}
+	return nil
+}
+
 // squareTerm returns t*t with math.Sqrt factors squared away.
 func squareTerm(t *Term) *Term {
 	co, rest := splitCoef(t)
@@ -362,6 +382,8 @@ func checkHdiag(ctx *Ctx, r *Report, nfn *ssa.Function, ts treeSpec) {
 		return
 	}
 	_ = idx
+	// a side length carried through the loop by doubling is 1<<i
+	val = solveGeometric(val)
 	// val^2 must be c * S^2 with S = conv(1<<i)*resolution and c >= d/4
 	sq := stripConv(squareTerm(val))
 	co, rest := splitCoef(sq)
@@ -459,10 +481,7 @@ func checkRoot(ctx *Ctx, r *Report, tfn *ssa.Function, ts treeSpec) {
 		return
 	}
 	// root cube
-	var rootV Val
-	if snap, ok := pcs[0].Args[1].(*Tuple); ok && len(snap.Elems) == 2 {
-		rootV = snap.Elems[1]
-	}
+	rootV := cubeArg(pcs[0], pcs[0].Args[1])
 	v, _ := fieldOf(rootV, "v")
 	n, _ := fieldOf(rootV, "n")
 	okRoot := false
